@@ -9,7 +9,10 @@ THEOREMS = ["C04_wellformed_unconditional", "C04_emitted_bytes_ok", "C04_emitted
 MONITORS = ["C04"]
 RULE = ("replies of every protocol over both IP versions with payload sizes 0..1472 including every odd length near word "
         "boundaries; UDP/IPv6 requests whose source port is solved (against the model's checksum) so that the reply's "
-        "checksum computes to zero; compared on all length and checksum fields; non-trivial = frame that elicits a reply")
+        "checksum computes to zero; hostile requests whose own header fields lie or are unusual (wrong / zero checksums at "
+        "every layer, length fields disagreeing with the frame, Ethernet padding, IPv4 options, TTL / hop limit 0-1-255, "
+        "TOS / flow label / fragment bits, TCP options, neighbour solicitations from :: and link-local sources); compared "
+        "on all length and checksum fields; non-trivial = frame that elicits a reply")
 TRUSTED = ["Coq 8.16.1 kernel + vm_compute", "extraction (ExtrOcamlBasic) + ocaml/model_run.ml", "harness/*.py",
            "Rust hook verif_driver.rs", "pnet accessor and checksum semantics as modelled (Checksum.v)"]
 ASSUMPTIONS = ["reply lengths stay below 2^16 (holds for frames up to the 4096-byte capture buffer; see C01 amplification bound)"]
@@ -62,6 +65,10 @@ def generate(tier, rng):
         for sp in solve_zero_ports("2001:db8::9", "2001:db8::1", dport, b"", b"SSH-2.0-1\r\n"):
             fr.append(net.frame_udp("2001:db8::9", "2001:db8::1", sp, dport, b"SSH-2.0-zz\r\n"))
     yield Script(cfg, fr, "udp6-zero-checksum-solver")
+
+
+    yield Script(cfg, gens.hostile_requests(rng), "hostile-requests")
+    yield Script(Cfg(self_ips=[gens.SELF4, gens.SELF6], key=(5, 6)), gens.hostile_requests(rng), "hostile-requests:self-ips")
 
 
 def nontrivial(script):
